@@ -11,36 +11,6 @@ set_option linter.unreachableTactic false
 namespace PyModeS.Tie
 open PyModeS PyModeS.Py PyModeS.CRC
 
-set_option hygiene false in
-/-- common opening of a Comm-B field decoder: both sides read the MB field `d` of 56 bits -/
-macro "commb_open" m:ident h:ident hl:ident : tactic => `(tactic|
-  (simp only [data_str, Res.bind_val, hex2bin_data $m $h $hl, dataR_hex $m $hl]
-   have hd := mb_length $m $hl
-   generalize slice 32 88 (hex2binM $m) = d at hd ⊢))
-
-set_option hygiene false in
-/-- evaluate both sides on the symbolic 56-bit field and finish by case analysis and field arithmetic -/
-macro "commb_close" : tactic => `(tactic|
-  (simp [sfield, ufield, wrap360, idxR_of_lt, hd, bin2intR_slice_of_lt, Val.ofNat, Val.ofOptRat]
-   try (split_ifs <;> simp_all [Val.ofOptRat] <;> (try push_cast) <;> (try ring_nf) <;> (try linarith))
-   all_goals (try (split_ifs <;> (try ring_nf at *) <;> (try linarith)))))
-
-/-- case analysis on an opaque `Res Bool` subterm occurring on both sides (`wrongstatus …`):
-    closes the finished branches, leaves the one that continues -/
-macro "res_bool" t:term : tactic => `(tactic|
-  (generalize $t = r
-   rcases r with ((_ | _) | _ | _)
-   all_goals try (simp only [Res.bind_val, Res.bind_rte, Res.bind_exc, Res.pure_eq, pyTruth_bool, Bool.not_true,
-     Bool.not_false, Bool.false_eq_true, if_true, if_false])))
-
-/-- case analysis on an opaque `Res (Option Rat)` subterm occurring on both sides (a field decoder) -/
-macro "res_opt" t:term : tactic => `(tactic|
-  (generalize $t = r
-   rcases r with ((_ | _) | _ | _)
-   all_goals try (simp only [Res.bind_val, Res.bind_rte, Res.bind_exc, Res.pure_eq, Val.ofOptRat, optAbsGt, optGt,
-     pyIsNot_none_num, pyIsNot_none_none, pyTruth_bool, pyAbs_num, pyGt_num, pySub_num, Bool.false_eq_true,
-     if_true, if_false, rabs, gt_iff_lt])))
-
 theorem roll50_tie (m : Msg) (h : IsHex m) (hl : m.length = 28) :
     Gen.bds50.roll50 (.str m) = (PyModeS.roll50 (hex2binM m) >>= fun o => .val (Val.ofOptRat o)) := by
   unfold Gen.bds50.roll50 PyModeS.roll50
@@ -71,16 +41,6 @@ theorem trk50_tie (m : Msg) (h : IsHex m) (hl : m.length = 28) :
   commb_open m h hl
   commb_close
 
-
-theorem allzerosB_hex (m : Msg) (hl : m.length = 28) :
-    allzerosB (hex2binM m) = .val (decide (PyModeS.bin2int (slice 32 88 (hex2binM m)) = 0)) := by
-  simp [allzerosB, dataR_hex m hl]
-
-/-- the five `wrongstatus` literals of a register, in the `Val.num` form the generated code uses -/
-theorem ws_lit (d : Bits) (sb msb lsb : Nat) (h1 : 1 ≤ sb) (h2 : 1 ≤ msb) :
-    Gen.py_common.wrongstatus (Val.ofBits d) (.num (sb : Rat)) (.num (msb : Rat)) (.num (lsb : Rat)) =
-      (PyModeS.wrongstatus d sb msb lsb >>= fun b => .val (.bool b)) :=
-  wrongstatus_ofBits d sb msb lsb h1 h2
 
 theorem is50_tie (m : Msg) (h : IsHex m) (hl : m.length = 28) :
     Gen.bds50.is50 (.str m) = (PyModeS.is50 (hex2binM m) >>= fun b => .val (.bool b)) := by
